@@ -43,6 +43,9 @@ Extraction "model.ml"
   soes_zero soes_one soes_num_cubes soes_num_lits soes_is_zero soes_is_one soes_from_cubes soes_value soes_or
   soes_to_lut soes_display
   spec_to_hex spec_to_bin spec_fmt bytes_eqb chk_from_hex
+  spec_cube_value spec_ecube_value cube_within ecube_within chk_cube_value chk_cube_and chk_cube_intersects chk_cube_implies
+  chk_cube_implies_lut chk_ecube_value chk_ecube_xor chk_ecube_not spec_soes_value chk_soes_or chk_text sample_assignments
+  spec_sop_value spec_esop_value
   (* mip programmes (C18) *)
   sop_program esop_program program_canon chk_sop_opt chk_sopes_opt chk_esop_opt sop_cost sopes_cost esop_cost
   sop_solution_ok sopes_solution_ok esop_solution_ok.
